@@ -252,11 +252,11 @@ fn crafted2(rng: &mut Rng) -> (Vec<u8>, &'static str, u8) {
             let q = top / size;
             let len = match rng.below(6) {
                 0 => q,
-                1 => q + 1,
+                1 => q.wrapping_add(1),
                 2 => q.saturating_sub(rng.below(4)),
                 3 => q - rng.below(64),
                 4 => (top - rng.below(4096)) / size,
-                _ => q / 3 + rng.below(5),
+                _ => (q / 3).wrapping_add(rng.below(5)),
             };
             let t = [vec![0x6d], sleb_i64(code)].concat();
             let mut v = leb_u64(len);
